@@ -688,10 +688,27 @@ def discharge(obligations, timeout_s=20, jobs=12, solvers=('z3', 'cvc5')):
         pre[id(ob)] = ob.slices() if hasattr(ob, 'slices') else \
             [('full', ob.smt2())]
 
+    failed_labels = {}
+
     def one(ob):
+        ob2, r = one_inner(ob)
+        if r is not None and r.status != smt.UNSAT:
+            failed_labels[ob.label] = failed_labels.get(ob.label, 0) + 1
+        return ob2, r
+
+    def one_inner(ob):
         slices = list(pre[id(ob)])
         t_used = 0.0
         last = None
+        if failed_labels.get(ob.label, 0) >= 2:
+            # two obligations with this label already failed in this run:
+            # one quick attempt only (the verdict of the check is settled
+            # by the first failures; this keeps mutated trees fast)
+            r = smt.solve_text(slices[-1][1], timeout_s=2, solvers=solvers,
+                               want_model=True)
+            if r.status == smt.UNKNOWN:
+                r.raw = 'skipped after earlier failures of the same label'
+            return ob, r
         # cheap first attempt on the whole VC; many are easy as they stand
         if len(slices) > 1:
             r = smt.solve_text(slices[-1][1], timeout_s=2, solvers=solvers,
